@@ -4,9 +4,35 @@ import (
 	"fmt"
 	"time"
 
+	"verifsim/refproto"
 	"verifsim/simnet"
 	"verifsim/spec"
 )
+
+// regNoncePrefix is the nonce the registry scenario gives segment i of a run (scen_registry.go
+// derives the same bytes), so the generator can search for names that collide on its hint.
+func regNoncePrefix(seed uint64, i int) []byte {
+	n := make([]byte, 24)
+	for j := range n {
+		n[j] = byte(simnet.H(seed, "regnonce", uint64(i), uint64(j)))
+	}
+	return n
+}
+
+// collidingNames finds two distinct names with the same 4-byte user hint under nonce
+// (birthday search, about 2^16 hashes).
+func collidingNames(nonce []byte, tag string) (string, string, bool) {
+	seen := map[[4]byte]string{}
+	for k := 0; k < 400000; k++ {
+		name := fmt.Sprintf("hc%s-%d", tag, k)
+		h := refproto.UserHint(name, nonce)
+		if other, ok := seen[h]; ok {
+			return other, name, true
+		}
+		seen[h] = name
+	}
+	return "", "", false
+}
 
 func genRegistrySpec(seed uint64, tier string) *spec.RunSpec {
 	r := simnet.NewRng(seed, "c07")
@@ -70,6 +96,36 @@ func genRegistrySpec(seed uint64, tier string) *spec.RunSpec {
 			}
 		}
 		rs.Segs = append(rs.Segs, sg)
+	}
+	// Names that collide on the 4-byte hint: two extra users A and B whose hints are equal
+	// under the nonce of B's segment; A authenticates (and is cached) from a source, then B
+	// presents its segment from the same source.
+	collide := r.Bool(0.35)
+	var segA, segB int
+	if collide {
+		segB = len(rs.Segs)
+		segA = segB + 1
+		a, b, ok := collidingNames(regNoncePrefix(seed, segB), fmt.Sprintf("%x", seed&0xffff))
+		if ok {
+			ia := len(rs.Universe)
+			rs.Universe = append(rs.Universe, spec.RUser{Name: a, Password: fmt.Sprintf("pwA-%x", r.U64()), ShareWith: -1}, spec.RUser{Name: b, Password: fmt.Sprintf("pwB-%x", r.U64()), ShareWith: -1})
+			for v := range rs.Sets {
+				rs.Sets[v] = append(rs.Sets[v], ia, ia+1)
+			}
+			rs.Segs = append(rs.Segs, spec.RSeg{Cred: ia + 1, Hint: ia + 1}, spec.RSeg{Cred: ia, Hint: ia})
+			if r.Bool(0.3) {
+				// B's key under a hint computed for A's name: the same four bytes
+				rs.Segs[segB].Hint = ia
+			}
+			nSegs = len(rs.Segs)
+			src := r.Intn(nSrc)
+			rs.Actors = append(rs.Actors, []spec.ROp{
+				{Op: "discover", Seg: segA, Source: src, Current: r.Bool(0.5), Record: true},
+				{Op: "discover", Seg: segB, Source: src, Current: r.Bool(0.5), Record: r.Bool(0.5)},
+				{Op: "discover", Seg: segB, Source: r.Intn(nSrc), Current: r.Bool(0.5), Record: r.Bool(0.5)},
+				{Op: "discover", Seg: segA, Source: src, Current: r.Bool(0.5), Record: true},
+			})
+		}
 	}
 	nDisc := 1 + r.Intn(3)
 	for a := 0; a < nDisc; a++ {
